@@ -17,8 +17,10 @@ namespace sim
    using io_top = io::g_signed;
 #elif IO_PROG == 5
    using io_top = io::g_chunked;
-#else
+#elif IO_PROG == 6
    using io_top = io::g_states;
+#else
+   using io_top = io::g_mustif;
 #endif
 
    using io_in = io_input< IO_INPUT >::type;
@@ -34,6 +36,8 @@ namespace sim
       (void)root;
       std::int64_t value = 0;
       return pegtl::parse< io_top, sim_action, sim_control >( in, value );
+#elif IO_PROG == 7
+      return pegtl::parse< io_top, sim_action, io::mi_control >( in, root );
 #else
       return pegtl::parse< io_top, sim_action, sim_control >( in, root );
 #endif
